@@ -134,6 +134,17 @@ def expiryStep (st : Bool × Nat) : Ev → Bool × Nat
   | .connUp sp => if sp then st else (false, if st.1 then st.2 + 1 else st.2)
   | _ => st
 def expiryDue (tr : List Ev) : Nat := (tr.foldl expiryStep (false, 0)).2
+/-- the QoS 0 lane of the receive channel, read off the events alone: what is due to arrive at the application on it, in order — every QoS 0
+message received (by its identity) and `0` for every `session_expired` report that becomes due — and what was handed over -/
+def laneStep (st : Bool × List Nat) : Ev → Bool × List Nat
+  | .subOk => (true, st.2)
+  | .connUp sp => if sp then st else (false, if st.1 then st.2 ++ [0] else st.2)
+  | .rxPub q _ m => if q = 0 then (st.1, st.2 ++ [m]) else st
+  | _ => st
+def laneDue (tr : List Ev) : List Nat := (tr.foldl laneStep (false, [])).2
+def laneDelivered (tr : List Ev) : List Nat :=
+  tr.filterMap fun e => match e with | .deliver q _ m => if q = 0 then some m else if q = 9 then some 0 else none | _ => none
+
 /-- a `session_expired` is handed to the application -/
 def isDeliverExp : Ev → Bool | .deliver q _ _ => q == 9 | _ => false
 
